@@ -121,7 +121,105 @@ func (s *scanner) Visit(n ast.Node) ast.Visitor {
 	return s
 }
 
+// lockScan: for every method of *<recvType> in the file, the ordered lock operations on the named mutex fields
+// (deferred or not), the calls of the named methods in between, and the returns
+type lockScanner struct {
+	recv    string
+	fields  map[string]bool
+	calls   map[string]bool
+	events  []string
+	deferd  int
+	touched bool
+}
+
+func (s *lockScanner) emit(e string) {
+	if s.deferd > 0 {
+		e = "defer:" + e
+	}
+	s.events = append(s.events, e)
+}
+
+func (s *lockScanner) Visit(n ast.Node) ast.Visitor {
+	switch x := n.(type) {
+	case *ast.DeferStmt:
+		s.deferd++
+		ast.Walk(s, x.Call)
+		s.deferd--
+		return nil
+	case *ast.FuncLit:
+		ast.Walk(s, x.Body)
+		return nil
+	case *ast.ReturnStmt:
+		for _, r := range x.Results {
+			ast.Walk(s, r)
+		}
+		s.emit("return")
+		return nil
+	case *ast.CallExpr:
+		for _, a := range x.Args {
+			ast.Walk(s, a)
+		}
+		name := sel(x.Fun)
+		parts := strings.Split(name, ".")
+		if len(parts) == 3 && parts[0] == s.recv && s.fields[parts[1]] {
+			s.emit(parts[1] + "." + parts[2])
+			s.touched = true
+			return nil
+		}
+		if s.calls[parts[len(parts)-1]] && len(parts) >= 2 {
+			s.emit(strings.Join(parts[1:], "."))
+			return nil
+		}
+		if f, ok := x.Fun.(*ast.SelectorExpr); ok {
+			ast.Walk(s, f.X)
+		}
+		return nil
+	}
+	return s
+}
+
+func lockScan(path, recvType, fields, calls string) {
+	fset := token.NewFileSet()
+	f, err := parser.ParseFile(fset, path, nil, 0)
+	if err != nil {
+		fmt.Fprintln(os.Stderr, err)
+		os.Exit(2)
+	}
+	set := func(csv string) map[string]bool {
+		m := map[string]bool{}
+		for _, x := range strings.Split(csv, ",") {
+			if x != "" {
+				m[x] = true
+			}
+		}
+		return m
+	}
+	var out []string
+	for _, d := range f.Decls {
+		fd, ok := d.(*ast.FuncDecl)
+		if !ok || fd.Recv == nil || len(fd.Recv.List) != 1 || fd.Body == nil || len(fd.Recv.List[0].Names) != 1 {
+			continue
+		}
+		if sel(fd.Recv.List[0].Type) != recvType {
+			continue
+		}
+		s := &lockScanner{recv: fd.Recv.List[0].Names[0].Name, fields: set(fields), calls: set(calls)}
+		ast.Walk(s, fd.Body)
+		if s.touched {
+			out = append(out, fd.Name.Name+": "+strings.Join(s.events, " "))
+		}
+	}
+	sort.Strings(out)
+	for _, l := range out {
+		fmt.Println(l)
+	}
+}
+
 func main() {
+	if len(os.Args) > 5 && os.Args[1] == "locks" {
+		lockScan(os.Args[2], os.Args[3], os.Args[4], os.Args[5])
+		return
+	}
 	path := "/repo/log_reader.go"
 	if len(os.Args) > 1 {
 		path = os.Args[1]
